@@ -40,7 +40,10 @@ pub fn grid_spacing(c: &Case) -> f64 {
 /// generators that are closer than ~1e-9 of the box).
 pub fn snap_theta(c: &Case, s: f64) -> f64 {
     if s > 0. {
-        (8. * grid_spacing(c) / s).min(1.)
+        // (the positions entering a bisector are themselves rounded to u L: `generator + shift`
+        // is rounded once more when the neighbour is a periodic image, differently on the two
+        // sides of the face)
+        (8. * (grid_spacing(c) + 2. * U * c.scale_l()) / s).min(1.)
     } else {
         1.
     }
